@@ -207,6 +207,8 @@ def run(shard, ctx):
                 two_facades(ctx, c, setname, rng)
             for _ in range(6 if shard["small"] else 80):
                 attached_facade(ctx, c, setname, rng)
+        if c.xfer == "alloc" and c.facade:
+            greedy_replies(ctx, c, setname, rng)
         for a in cases(c, rng, shard):
             i += 1
             if a.pop("_huge", False):
@@ -511,6 +513,47 @@ def attached_facade(ctx, c, setname, rng):
             full = dict(harness.defaults(c))
             full.update(a)
             check_buffers(ctx, c, setname, "attached_facade", full, sent.cdb, sent.datain, sent.dataout)
+
+
+def greedy_replies(ctx, c, setname, rng):
+    """a device that announces the largest amount of data its length fields can express (FFh / FFFFh / FFFF FFFFh, one less, and
+    plausible large values), asked through the facade with the allocation length left at its default and with explicit ones:
+    however the library reacts, every hand-over of a command carries buffers that match its CDB"""
+    import pyscsi.pyscsi.scsi_enum_command as E
+
+    from vmon import harness
+
+    heads = [b"\xff" * 8, b"\xff\xfe" + b"\xff" * 6, b"\x00\x00\xff\xff" + bytes(4), b"\xff\xff\xff\xfe" + bytes(4), b"\x00\xff" + bytes(6), b"\xfe" + bytes(7), b"\x00\x01\x00\x00" + bytes(4)]
+    alloc_arg = next((k for k, spec in c.args.items() if spec[0] == "alloc"), None)
+    for head in heads:
+        for explicit in (False, True):
+            def fill(cmd, head=head):
+                if cmd.datain is not None and len(cmd.datain):
+                    k = min(len(head), len(cmd.datain))
+                    cmd.datain[:k] = head[:k]
+
+            dev = harness.Recorder(getattr(E, setname), fill)
+            s = harness.make_facade(dev, 512)
+            a = dict(harness.random_args(c, rng, cap=4096))
+            if "blocksize" in a:
+                a["blocksize"] = 512
+            kw = harness.call_kwargs(c, harness.fill_derived(c, a, rng))
+            kw.pop("blocksize", None)
+            if not explicit and alloc_arg:
+                kw.pop(alloc_arg, None)
+                a.pop(alloc_arg, None)
+            kw.update(c.facade_fixed)
+            try:
+                getattr(s, c.facade)(**kw)
+            except Exception:  # noqa: BLE001
+                pass  # (decoding such a reply may fail: C04/C11's business)
+            ctx.case(("greedy", c.name, setname, head, explicit), True)
+            ctx.count("greedy_replies")
+            full = dict(harness.defaults(c))
+            full.update(a)
+            for n, call in enumerate(dev.calls):
+                sent = call[0]
+                check_buffers(ctx, c, setname, "facade.after_greedy_reply.hand_over_%d" % min(n, 2), full, sent.cdb, sent.datain, sent.dataout, by_cdb_only=True)
 
 
 def finalize(merged, tier):
